@@ -553,6 +553,16 @@ func TestDriver(t *testing.T) {
 	os.Exit(drive(prop))
 }
 
+// quickRuns is the number of seeds (base .. base+n-1) the quick tier explores
+// per property: about what 16 idle cores explore in 20-50 s on the unchanged
+// tree, and about what the former 40 s wall clock budget covered there.
+var quickRuns = map[string]int{
+	"C01": 18000, "C02": 9000, "C03": 14000, "C04": 20000, "C05": 50000,
+	"C06": 9500, "C07": 4300, "C08": 23000, "C09": 24500, "C10": 8600,
+	"C11": 6400, "C12": 1450, "C13": 8200, "C14": 180000, "C16": 13600,
+	"C17": 63000, "C18": 17200, "C19": 8400, "C20": 7100,
+}
+
 func drive(prop string) int {
 	tier := os.Getenv("VERIF_TIER")
 	if tier == "" {
@@ -560,9 +570,22 @@ func drive(prop string) int {
 	}
 	thorough := tier == "thorough"
 	seed := uint64(envInt("VERIF_SEED", 1))
-	budget := envInt("VERIF_BUDGET_S", 40)
-	if thorough && os.Getenv("VERIF_BUDGET_S") == "" {
-		budget = 900
+	// quick explores a fixed number of seeds (quickRuns, VERIF_RUNS overrides),
+	// so that what a run covers does not depend on how fast or how loaded the
+	// machine is; its wall clock bound is only a watchdog. thorough, and any run
+	// with an explicit VERIF_BUDGET_S, explores until the wall clock budget ends.
+	quota := 0
+	budget := envInt("VERIF_BUDGET_S", 0)
+	if budget <= 0 {
+		if thorough {
+			budget = 900
+		} else {
+			budget = 1500
+			quota = quickRuns[prop]
+		}
+	}
+	if n := envInt("VERIF_RUNS", 0); n > 0 {
+		quota = n
 	}
 	workers := envInt("VERIF_WORKERS", runtime.NumCPU())
 	if workers < 1 {
@@ -585,42 +608,71 @@ func drive(prop string) int {
 	var trouble []string
 	var wg sync.WaitGroup
 	stop := false
+	nextIdx := 0 // quota mode: the next seed index not yet handed to a worker
+	// one worker process over the seed indices start, start+stride, ... (at most
+	// maxRuns of them); returns the index it stopped at, false when the
+	// exploration has to end
+	runJob := func(w, gen, start, stride, maxRuns int) (int, bool) {
+		job := workerJob{Prop: prop, Thorough: thorough, Base: base, Start: start, Stride: stride, MaxRuns: maxRuns,
+			Deadline: deadline.UnixMilli(), Out: filepath.Join(tmp, fmt.Sprintf("w%d-%d.json", w, gen)), Known: knownList}
+		gmp := []int{1, 2, 4, 16}[w%4]
+		wo, err := spawnWorker(job, gmp)
+		mu.Lock()
+		defer mu.Unlock()
+		if err != nil {
+			trouble = append(trouble, err.Error())
+			stop = true
+			return start, false
+		}
+		merge(agg, wo)
+		for _, f := range wo.Findings {
+			if _, ok := knownMap.match(f.Finger); !ok {
+				stop = true // an unknown violation: stop exploring, report
+			}
+		}
+		return wo.Next, wo.Next > start
+	}
 	for w := 0; w < workers; w++ {
 		wg.Add(1)
 		go func(w int) {
 			defer wg.Done()
 			next := w
+			end := 0
 			gen := 0
 			for time.Now().Before(deadline) {
 				mu.Lock()
 				s := stop
+				if quota > 0 && !s && next >= end {
+					// take the next chunk of seed indices: chunks shrink towards
+					// the end so that the workers finish together
+					if nextIdx >= quota {
+						s = true
+					} else {
+						n := (quota - nextIdx) / (workers * 3)
+						if n < 1 {
+							n = 1
+						}
+						if lim := quota / (workers * 6); n > lim && lim > 0 {
+							n = lim
+						}
+						next, end = nextIdx, nextIdx+n
+						nextIdx = end
+					}
+				}
 				mu.Unlock()
 				if s {
 					return
 				}
 				gen++
-				job := workerJob{Prop: prop, Thorough: thorough, Base: base, Start: next, Stride: workers, MaxRuns: 100000,
-					Deadline: deadline.UnixMilli(), Out: filepath.Join(tmp, fmt.Sprintf("w%d-%d.json", w, gen)), Known: knownList}
-				gmp := []int{1, 2, 4, 16}[w%4]
-				wo, err := spawnWorker(job, gmp)
-				mu.Lock()
-				if err != nil {
-					trouble = append(trouble, err.Error())
-					stop = true
-					mu.Unlock()
+				var ok bool
+				if quota > 0 {
+					next, ok = runJob(w, gen, next, 1, end-next)
+				} else {
+					next, ok = runJob(w, gen, next, workers, 100000)
+				}
+				if !ok {
 					return
 				}
-				merge(agg, wo)
-				for _, f := range wo.Findings {
-					if _, ok := knownMap.match(f.Finger); !ok {
-						stop = true // an unknown violation: stop exploring, report
-					}
-				}
-				mu.Unlock()
-				if wo.Next <= next {
-					return
-				}
-				next = wo.Next
 			}
 		}(w)
 	}
@@ -705,7 +757,7 @@ func drive(prop string) int {
 		fmt.Println("TROUBLE (not a verdict): the simulation is not deterministic for this tree")
 		return 2
 	}
-	writeEvidence(prop, tier, seed, agg, time.Since(t0), nviol, workers, detChecked)
+	writeEvidence(prop, tier, seed, agg, time.Since(t0), nviol, workers, detChecked, quota, nextIdx)
 	for _, l := range lines {
 		fmt.Println(l)
 	}
@@ -713,6 +765,12 @@ func drive(prop string) int {
 		prop, tier, agg.Runs, agg.NonTrivial, nviol, len(seenKnown), time.Since(t0).Seconds(), agg.Steps, agg.SimMs/1000, agg.StepLimit, detChecked-detBad, detChecked)
 	if agg.Runs == 0 {
 		fmt.Println("TROUBLE (not a verdict): no run completed")
+		return 2
+	}
+	if quota > 0 && code == 0 && agg.Runs < quota {
+		// the watchdog ended the run before the seed quota was explored: this
+		// is not a verdict on the property
+		fmt.Printf("TROUBLE (not a verdict): only %d of %d seeds explored within %d s\n", agg.Runs, quota, budget)
 		return 2
 	}
 	return code
